@@ -134,7 +134,15 @@ def new_session(kind, files, wire, handed):
     import requests
     import requests_cache
 
-    s = requests.Session() if kind == "plain" else requests_cache.CachedSession(backend="memory")
+    if kind == "plain":
+        s = requests.Session()
+    else:
+        # caching sessions come from pydap's own factory, all on the SAME cache settings (as the default settings
+        # are): sessions created side by side are still separate sessions
+        from pydap.net import create_session
+        s = create_session(use_cache=True, cache_kwargs={"cache_name": "c18_cache", "backend": "memory"})
+        if not isinstance(s, requests_cache.CachedSession):
+            raise TypeError("create_session(use_cache=True) did not return a CachedSession")
     s.mount("http://", OriginAdapter(make_app(files), wire))
     s.mount("https://", OriginAdapter(make_app(files), wire))
     inner = s.send
@@ -425,6 +433,10 @@ def check_collection(ctx, coll, ops, corr, how="generated"):
     case = {"collection": coll, "reads": ops, "how": how}
     size = 1000 * len(coll["files"]) + 50 * len(ops) + len(repr(coll))
     ok = True
+    # a bystander: another caching session on the same cache settings, created before the consolidation and never
+    # consolidated itself; it must keep behaving like any unconsolidated caching session
+    by_handed = []
+    bystander = new_session("cached", files, [], by_handed)
     s, handed, res = consolidate_real(coll, files)
     cons_log = list(handed)
     del handed[:]
@@ -473,6 +485,21 @@ def check_collection(ctx, coll, ops, corr, how="generated"):
     plain = run_reads("plain", coll, files, ops)
     cached = run_reads("cached", coll, files, ops)
     own = own_values(coll, files, ops)
+    if coll.get("session") != "plain":
+        by = run_reads("cached", coll, files, ops, session=bystander)
+        if by != plain:
+            j = next(k for k in range(len(ops)) if by[k] != plain[k])
+            ctx.oracle_fail("a read through a caching session that was never consolidated differs from the plain session's "
+                            "read after ANOTHER session was consolidated", case,
+                            {"read": j, "op": ops[j], "bystander": by[j]}, {"plain": plain[j]}, size=size)
+            ok = False
+        for u, k, pk in keys[:200]:
+            bk = bystander.cache.create_key(requests.Request("GET", u).prepare())
+            if bk != pk:
+                ctx.oracle_fail("the cache key of a session that was never consolidated changed when another session was "
+                                "consolidated", case, {"url": u, "key": bk}, {"plain key": pk}, size=size)
+                ok = False
+                break
     n_shared_reads = n_excluded = 0
     for j, (i, name, idx) in enumerate(ops):
         f = coll["files"][i]
